@@ -228,6 +228,7 @@ func runC06(c *Check) {
 	c.rulePopulatedBeforeRegistering("R13")
 	c.ruleUnconfirmedSetKeepsEveryEntry("R14")
 	c.ruleConflictingConsultsEveryInput("R15")
+	c.ruleProcessedTxRegistered("R16")
 	c.ruleLoopVisitsAll("R9", "spynode.(*Node).ProcessBlock", isConfl, "conflicting-tx",
 		"the loop over the conflicting txs can be left early without an error (break): the conflicts after that point get no cancelled update although they were evicted from double-spend tracking")
 
